@@ -374,13 +374,14 @@ def run(ctx):
             "deep2": ({"TreeSet": "<- TreesDeep", "Ops": "<- OpsWalk", "MaxLen": 2, "Prots": D}, ctx.pick(6, 60)),
             "mv2": ({"TreeSet": "<- TreesMove", "Ops": "<- OpsMove", "MaxLen": 2, "Prots": D}, ctx.pick(6, 60)),
             "unch3": ({"TreeSet": "<- TreesUnch", "Ops": "<- OpsUnch", "MaxLen": 3, "Prots": D}, ctx.pick(8, 60)),
+            "pop4": ({"TreeSet": "<- TreesPop", "Ops": "<- OpsPop", "MaxLen": 4, "Prots": D}, ctx.pick(8, 60)),
             "gl3": ({"TreeSet": "<- TreesGl", "Ops": "<- OpsAll", "MaxLen": 3, "Prots": D}, 60),
             "core2": ({"TreeSet": "<- TreesCore", "Ops": "<- OpsAll", "MaxLen": 2, "Prots": D}, 300),
             "small3": ({"TreeSet": "<- TreesSmall", "Ops": "<- OpsAll", "MaxLen": 3, "Prots": D}, 300),
             "full2": ({"TreeSet": "<- TreesFull", "Ops": "<- OpsNoClone", "MaxLen": 2, "Prots": D}, 400),
         }
-        order = ctx.pick(["names1", "dang2", "deep2", "mv2", "unch3", "tiny3", "mid2"],
-                         ["names1", "dang2", "deep2", "mv2", "unch3", "tiny3", "mid2", "gl3", "core2", "small3", "full2"])
+        order = ctx.pick(["names1", "dang2", "deep2", "mv2", "unch3", "pop4", "tiny3", "mid2"],
+                         ["names1", "dang2", "deep2", "mv2", "unch3", "pop4", "tiny3", "mid2", "gl3", "core2", "small3", "full2"])
         only = os.environ.get("C17_ONLY", "")
         if only:
             order = [x for x in only.split(",") if x in plans]
@@ -393,7 +394,7 @@ def run(ctx):
         deadline = ctx.t0 + ctx.pick(78, 1080)
         # the small targeted configurations always run to the end (each is a few seconds of work); the
         # large ones share the time that is left, in proportion to their nominal budgets
-        small = {"names1", "dang2", "deep2", "mv2", "unch3"}
+        small = {"names1", "dang2", "deep2", "mv2", "unch3", "pop4"}
         weight = {nm: plans[nm][1] for nm in order}
         for i, nm in enumerate(order):
             dot, fixed = submitted[nm]
